@@ -297,22 +297,22 @@ Section Ext.
   Proof.
     intros Hc Ho Hn A. unfold object_branch.
     destruct it as [| | | p k fs | |]; try discriminate. simpl fields_of. rewrite esize_obj in A.
-    apply obind_ext; [apply object_equals_ext; auto|]. intros r0.
+    assert (Hb : object_equals cfg r1 fs w = object_equals cfg r2 fs w) by (apply object_equals_ext; auto).
     unfold as_kind.
     destruct (tl_contains tl_ActivityTypes (typ w)).
-    { destruct (cast_ok KActivity k); [apply activity_equals_ext; auto|reflexivity]. }
+    { destruct (cast_ok KActivity k); [apply activity_equals_ext; auto|exact Hb]. }
     destruct (tl_contains tl_ActorTypes (typ w)).
-    { destruct (cast_ok KActor k); [apply actor_equals_ext; auto|reflexivity]. }
-    destruct (is_collection_m (IObj p k fs)); [|reflexivity].
+    { destruct (cast_ok KActor k); [apply actor_equals_ext; auto|exact Hb]. }
+    destruct (is_collection_m (IObj p k fs)); [|exact Hb].
     destruct (bytes_eqb _ _).
-    { destruct (cast_ok KCollection k); [apply collection_equals_ext; auto|reflexivity]. }
+    { destruct (cast_ok KCollection k); [apply collection_equals_ext; auto|exact Hb]. }
     destruct (bytes_eqb _ _).
-    { destruct (cast_ok KOrdered k); [apply ordered_equals_ext; auto|reflexivity]. }
+    { destruct (cast_ok KOrdered k); [apply ordered_equals_ext; auto|exact Hb]. }
     destruct (bytes_eqb _ _).
-    { destruct (cast_ok KCollectionPage k); [apply page_equals_ext; auto|reflexivity]. }
+    { destruct (cast_ok KCollectionPage k); [apply page_equals_ext; auto|exact Hb]. }
     destruct (bytes_eqb _ _).
-    { destruct (cast_ok KOrderedPage k); [apply opage_equals_ext; auto|reflexivity]. }
-    reflexivity.
+    { destruct (cast_ok KOrderedPage k); [apply opage_equals_ext; auto|exact Hb]. }
+    exact Hb.
   Qed.
 
   Lemma body_ext it w :
@@ -448,12 +448,12 @@ Section Tot.
 
   Lemma object_branch_total it w : total (object_branch cfg_fixed rec it w).
   Proof.
-    unfold object_branch. apply obind_total; [apply object_equals_total|]. intro r0.
+    unfold object_branch. cbv zeta.
     repeat match goal with
            | |- total (if ?c then _ else _) => destruct c
-           | |- total (match ?x with _ => _ end) => destruct x
+           | |- total (match ?x with Some _ => _ | None => _ end) => destruct x
            end;
-      first [ apply total_ok | apply activity_equals_total | apply actor_equals_total
+      first [ apply object_equals_total | apply activity_equals_total | apply actor_equals_total
             | apply collection_equals_total | apply ordered_equals_total | apply page_equals_total
             | apply opage_equals_total ].
   Qed.
@@ -760,22 +760,23 @@ Section Refl.
 
   Lemma object_branch_refl p k : k <> KLink -> object_branch cfg_fixed ieq (IObj p k fs) (IObj p k fs) = Ok true.
   Proof.
-    intro Hk. unfold object_branch. cbn [fields_of]. rewrite object_equals_refl by exact Hk.
-    cbn [obind]. unfold as_kind.
+    intro Hk. unfold object_branch. cbn [fields_of].
+    assert (Hb : object_equals cfg_fixed ieq fs (IObj p k fs) = Ok true) by (apply object_equals_refl; exact Hk).
+    unfold as_kind.
     destruct (tl_contains tl_ActivityTypes _).
-    { destruct (cast_ok KActivity k) eqn:E; [apply activity_equals_refl; exact E|reflexivity]. }
+    { destruct (cast_ok KActivity k) eqn:E; [apply activity_equals_refl; exact E|exact Hb]. }
     destruct (tl_contains tl_ActorTypes _).
-    { destruct (cast_ok KActor k) eqn:E; [apply actor_equals_refl; exact E|reflexivity]. }
-    destruct (is_collection_m _); [|reflexivity].
+    { destruct (cast_ok KActor k) eqn:E; [apply actor_equals_refl; exact E|exact Hb]. }
+    destruct (is_collection_m _); [|exact Hb].
     destruct (bytes_eqb _ _).
-    { destruct (cast_ok KCollection k) eqn:E; [apply collection_equals_refl; exact E|reflexivity]. }
+    { destruct (cast_ok KCollection k) eqn:E; [apply collection_equals_refl; exact E|exact Hb]. }
     destruct (bytes_eqb _ _).
-    { destruct (cast_ok KOrdered k) eqn:E; [apply ordered_equals_refl; exact E|reflexivity]. }
+    { destruct (cast_ok KOrdered k) eqn:E; [apply ordered_equals_refl; exact E|exact Hb]. }
     destruct (bytes_eqb _ _).
-    { destruct (cast_ok KCollectionPage k) eqn:E; [apply page_equals_refl; exact E|reflexivity]. }
+    { destruct (cast_ok KCollectionPage k) eqn:E; [apply page_equals_refl; exact E|exact Hb]. }
     destruct (bytes_eqb _ _).
-    { destruct (cast_ok KOrderedPage k) eqn:E; [apply opage_equals_refl; exact E|reflexivity]. }
-    reflexivity.
+    { destruct (cast_ok KOrderedPage k) eqn:E; [apply opage_equals_refl; exact E|exact Hb]. }
+    exact Hb.
   Qed.
 End Refl.
 
@@ -879,21 +880,23 @@ Section Mism.
   Lemma object_branch_mism p k q k' :
     object_branch cfg_fixed ieq (IObj p k fs) (IObj q k' gs) = Ok false.
   Proof.
-    unfold object_branch. cbn [fields_of]. rewrite OE. cbn [obind]. unfold as_kind.
+    unfold object_branch. cbn [fields_of].
+    assert (Hb : object_equals cfg_fixed ieq fs (IObj q k' gs) = Ok false) by apply OE.
+    unfold as_kind.
     destruct (tl_contains tl_ActivityTypes _).
-    { destruct (cast_ok KActivity k); [apply activity_equals_mism|reflexivity]. }
+    { destruct (cast_ok KActivity k); [apply activity_equals_mism|exact Hb]. }
     destruct (tl_contains tl_ActorTypes _).
-    { destruct (cast_ok KActor k); [apply actor_equals_mism|reflexivity]. }
-    destruct (is_collection_m _); [|reflexivity].
+    { destruct (cast_ok KActor k); [apply actor_equals_mism|exact Hb]. }
+    destruct (is_collection_m _); [|exact Hb].
     destruct (bytes_eqb _ _).
-    { destruct (cast_ok KCollection k); [apply collection_equals_mism|reflexivity]. }
+    { destruct (cast_ok KCollection k); [apply collection_equals_mism|exact Hb]. }
     destruct (bytes_eqb _ _).
-    { destruct (cast_ok KOrdered k); [apply ordered_equals_mism|reflexivity]. }
+    { destruct (cast_ok KOrdered k); [apply ordered_equals_mism|exact Hb]. }
     destruct (bytes_eqb _ _).
-    { destruct (cast_ok KCollectionPage k); [apply page_equals_mism|reflexivity]. }
+    { destruct (cast_ok KCollectionPage k); [apply page_equals_mism|exact Hb]. }
     destruct (bytes_eqb _ _).
-    { destruct (cast_ok KOrderedPage k); [apply opage_equals_mism|reflexivity]. }
-    reflexivity.
+    { destruct (cast_ok KOrderedPage k); [apply opage_equals_mism|exact Hb]. }
+    exact Hb.
   Qed.
 End Mism.
 
@@ -970,7 +973,6 @@ Proof.
   intros Ht Ha Hin Hc.
   rewrite ieq_unfold, body_objects_noswap; [|discriminate|auto using needs_swap_same_type].
   unfold object_branch. cbn [fields_of].
-  destruct (object_equals_total ieq ieq_total fs (IObj q KActivity gs)) as [r0 ->]. cbn [obind].
   unfold typ. cbn [get_type]. rewrite Ha. unfold as_kind. cbn [cast_ok].
   unfold activity_equals. rewrite nil_guard_obj. unfold as_kind. cbn [cast_ok].
   unfold intransitive_equals. rewrite nil_guard_obj. unfold as_kind. cbn [cast_ok].
